@@ -6,19 +6,20 @@ SPEC.update({
     "props": "Props/C05.v",
     "driver_args": ["-prop", "C05"],
     "clauses": {3: "exhausted_only_if_full: exhaustion reported while a usable unit has no live holder",
-                4: "returns_to_circulation: release of a live holder refused / released or expired lease still reported",
+                4: "returns_to_circulation: release of a live holder refused / released or expired lease still reported (stream srv6: a unit allocated in a pool or recorded in a lease for a client that is not a live holder of it; a unit neither free nor allocated)",
                 5: "renew_protects: a live (renewed within grace) lease refused, lost or reported absent",
-                6: "stats_exact: allocated / total / utilisation differ from the true counts",
+                6: "stats_exact: allocated / total / utilisation differ from the true counts (stream srv6: #allocated of a pool differs from the number of live holders)",
                 9: "malformed trace"},
 })
 SPEC["assumptions"] = _m._ASSUME + [
     "leaks are observed when the history fills the pool (every small history ends with capacity+1 allocations by fresh holders) or through Stats; pools without a Stats API (v6 pools, pppoe) are observed through exhaustion only",
     "epoch allocator: stats_exact under the guard is tied (guarded stream) but not proved; exhausted_only_if_full and release are proved under the guard",
     "failed persistence (store write failure) belongs to DistributedAllocator: see C12",
+    "live subscribers exist only at the level of a server: stream 'srv6' drives the real dhcpv6.Server (lease table + AddressPool + PrefixPool, legacy pools; the integrated PoolAllocator branch, Confirm and Information-Request are not driven) one datagram at a time and judges both pools against the holders the replies created, after every message; an Advertise counts as a tentative holding for the lifetimes it carries; the other servers (dhcp.Server, pppoe.Server, subscriber.Manager) are judged over their pools by C02 / C16, not here",
 ]
 MANIFEST = {
-    "text": "Same Models and streams as C01, acceptor clauses of C05. Bitmap: exhaustion only when every unit is held, release frees, a free unit is served at once, Stats = true counts - proved for all histories and all geometries below 2^64 units (at 2^64 the Uint64() truncation makes an empty pool 'exhausted': refuted, known finding K05b/K05c); SetAllocation double count fixed (46ed00d). Epoch allocator: renew_protects proved in full (any later history with <= grace epoch advances keeps the lease); the 2-bit generation wrap and grace >= 2 refute exhausted_only_if_full / stats_exact (witnesses replayed on the real allocator, known findings K05d/K05e with ghost markers) and both are proved under the decidable guard 'grace = 1 and no usable slot's true age >= 4'. Free lists: conservation invariant (every unit is free, held or declared unavailable) for every history; pppoe.IPPool leak fixed (9686c62).",
-    "note": "Theorems are about the Models; tie as in C01 plus epoch-advance bursts 0..9, identical-record reloads 1..3 times, Stats after operations. Store-failure rollback is C12's subject.",
+    "text": "Same Models and streams as C01, acceptor clauses of C05. Bitmap: exhaustion only when every unit is held, release frees, a free unit is served at once, Stats = true counts - proved for all histories and all geometries below 2^64 units (at 2^64 the Uint64() truncation makes an empty pool 'exhausted': refuted, known finding K05b/K05c); SetAllocation double count fixed (46ed00d). Epoch allocator: renew_protects proved in full (any later history with <= grace epoch advances keeps the lease); the 2-bit generation wrap and grace >= 2 refute exhausted_only_if_full / stats_exact (witnesses replayed on the real allocator, known findings K05d/K05e with ghost markers) and both are proved under the decidable guard 'grace = 1 and no usable slot's true age >= 4'. Free lists: conservation invariant (every unit is free, held or declared unavailable) for every history; pppoe.IPPool leak fixed (9686c62). The pools under dhcpv6.Server (Model of the lease table and handlers composed over the free-list Model): for every message history and either pool present or not, conservation of both pools, a Release returns the address AND the prefix the lease records, nothing but the client's own Release/Decline takes a recorded unit away (full); 'every allocated unit belongs to a client whose lifetimes run' and NoAddrsAvail/NoPrefixAvail only when full are refuted (K05f: a unit reserved by an Advertise the lease does not record survives the client's Release; K05g: nothing ever expires) and proved under the decidable guard that the history raises neither marker.",
+    "note": "Theorems are about the Models; tie as in C01 plus epoch-advance bursts 0..9, identical-record reloads 1..3 times, Stats after operations, and the real DHCPv6 server driven message by message with its pools judged against the live lease holders after every message. Store-failure rollback is C12's subject.",
     "technique": "Rocq proof (invariants over all histories, ghost unbounded generation for the 2-bit epoch tags, pigeonhole via NoDup_incl_length) + differential correspondence and trace monitor",
     "design_ref": "DESIGN.md §8 C05",
 }
